@@ -359,7 +359,7 @@ def fdwra_near_tie_index(dbg, n, dfn, peak_sets, scale, exact_zero=False):
     return None
 
 
-def fdwra_with_trace(obj, n, maxit, dfn, dmc, rng_, exact_zero=False):
+def fdwra_with_trace(obj, n, maxit, dfn, dmc, rng_, exact_zero=False, kw_empty=False):
     import hvsrpy
     import logging
     lg = logging.getLogger("hvsrpy.window_rejection")
@@ -370,7 +370,8 @@ def fdwra_with_trace(obj, n, maxit, dfn, dmc, rng_, exact_zero=False):
     try:
         with np.errstate(all="ignore"):
             ret = hvsrpy.frequency_domain_window_rejection(obj, n=n, max_iterations=maxit, distribution_fn=dfn,
-                                                           distribution_mc=dmc, search_range_in_hz=tuple(rng_))
+                                                           distribution_mc=dmc, search_range_in_hz=tuple(rng_),
+                                                           **(dict(find_peaks_kwargs={}) if kw_empty else {}))
     except STAT_ERRS:
         ret = "err"
     finally:
@@ -488,6 +489,24 @@ class Mirror:
         canon = {"log-normal": "lognormal"}
         self.lines.append(f"hv.fdwra {self.oid} {hexf(n)} {maxit} {canon.get(dfn, dfn)} {canon.get(dmc, dmc)} {fopt(rng_[0])} {fopt(rng_[1])}")
         return ret
+
+    def fdwra_kw(self, n, maxit, dfn, dmc, rng_, kw_empty=True, az=None):
+        """frequency_domain_window_rejection with find_peaks_kwargs={} (the entry peak search is skipped when the stored range equals the requested one),
+        on the whole object or -- az given -- on ONE azimuth of an azimuthal object (users do analyse single azimuths)"""
+        target = self.obj if az is None else self.obj.hvsrs[az]
+        ret, dbg, near = fdwra_with_trace(target, n, maxit, dfn, dmc, rng_, exact_zero=getattr(self, "exact_zero", False), kw_empty=kw_empty)
+        self.last_debug = dbg
+        self.last_near_tie = near
+        self.last_near_index = fdwra_with_trace.last_index
+        canon = {"log-normal": "lognormal"}
+        self.lines.append(f"hv.fdwrakw {self.oid} {hexf(n)} {maxit} {canon.get(dfn, dfn)} {canon.get(dmc, dmc)} {fopt(rng_[0])} {fopt(rng_[1])} "
+                          f"{1 if kw_empty else 0} {0 if az is None else az + 1}")
+        return ret
+
+    def sub_update(self, az, rng_, kw_empty=False):
+        """update_peaks_bounded on one azimuth of an azimuthal object"""
+        self.obj.hvsrs[az].update_peaks_bounded(search_range_in_hz=tuple(rng_), find_peaks_kwargs={} if kw_empty else None)
+        self.lines.append(f"hv.subupdate {self.oid} {az} {fopt(rng_[0])} {fopt(rng_[1])} {1 if kw_empty else 0}")
 
     def state_line(self):
         return f"hv.state {self.oid}"
